@@ -84,9 +84,11 @@ theorem atoiOpt_natToBytes (n : Nat) (hn : n ≤ 9223372036854775807) : atoiOpt 
     have hv : (c :: rest).foldl (fun acc d => acc * 10 + ((d.toNat - 48 : Nat) : Int)) 0 = (n : Int) := h3
     rw [hv]
     have : ¬ ((n : Int) > 9223372036854775807) := by omega
-    simp only [this, if_false]
     have hc2 : (c == 0x2d) = false := by
       rw [Bool.or_eq_false_iff] at hc1; exact hc1.1
-    simp [hc2]
+    simp [hc2, this]
+
+theorem wrap64_id (i : Int) (h1 : -9223372036854775808 ≤ i) (h2 : i ≤ 9223372036854775807) : wrap64 i = i := by
+  unfold wrap64; omega
 
 end Coraza.Engine
